@@ -102,3 +102,13 @@ def walk_own(fnode):
         if isinstance(n, (ast.FunctionDef, ast.AsyncFunctionDef, ast.Lambda, ast.ClassDef)):
             continue
         stack.extend(ast.iter_child_nodes(n))
+
+
+def is_imm(target, imm) -> bool:
+    """target is (inside) an object known to be an immutable atom on this path."""
+    if not target:
+        return False
+    for t in imm:
+        if target == t or target.startswith(t + "/"):
+            return True
+    return False
